@@ -194,7 +194,7 @@ Lemma alloc_ow_unfold : forall n rbp len cntr cnts errno orcr orcs flags inst rf
     Some (ptr + 4 * Z.rem (u32 (u32 w + u32 2)) W, cntr, cnts1, errno,
           upd (upd d (u32 w) (u32 (u32 0))) (Z.rem (u32 (u32 w + u32 1)) W) (u32 (s32 2702233296)), r).
 Proof.
-  intros. unfold qb_rb_chunk_alloc at 1. rewrite H, H0. cbv beta iota zeta fix.
+  intros. unfold qb_rb_chunk_alloc at 1. rewrite H, H0. cbn [qb_rb_chunk_alloc_loop1].
   destruct (qb_rb_space_free rbp cnts orcs inst sfn r W w) as [sf cnts1].
   destruct (u64 sf <? _) eqn:E.
   - destruct (_rb_chunk_reclaim rbp cntr errno orcr inst rfn d r W w) as [[[[rc0 cntr1] errno1] d1] r1].
